@@ -451,6 +451,9 @@ class Exec:
         return DictV(items)
 
     def ev_JoinedStr(self, e, st):
+        m = getattr(self.k, "fstring_model", None) if self.k is not None else None
+        if m is not None:
+            return m(self, st, e)          # a contract may give meaning to the few f-strings whose value matters (a file name)
         return StrV("<fstring>")
 
     def ev_Attribute(self, e, st):
